@@ -121,8 +121,11 @@ class Sub:
         exhaustive=False,
         frames=None,
         reps=(1, 1),
+        runner=None,
     ):
         self.name = name
+        # runner(prop, sub, stratum, tier, seed, stats, open_known, rep): custom driver (stateful machines)
+        self.runner = runner
         # reps: independent Hypothesis runs (own seed, own process slot) per stratum
         self.reps = reps
         self.check = check
@@ -281,7 +284,9 @@ def run_unit(args):
         stratum = sub.strata(tier)[sidx]
         out["stratum"] = stratum.get("id", str(sidx))
         open_known, _ = load_known()
-        if sub.cases is not None and sub.strategy is None:
+        if sub.runner is not None:
+            sub.runner(prop, sub, stratum, tier, unit_seed(seed, prop, sub.name, stratum.get("id", "") + "@%d" % rep), stats, open_known)
+        elif sub.cases is not None and sub.strategy is None:
             _run_enumerated(prop, sub, stratum, tier, stats, open_known)
         else:
             _run_generated(prop, sub, stratum, tier, seed, stats, open_known, rep)
@@ -430,7 +435,7 @@ def run_property(prop, tier):
     units = []
     for s in subs:
         nrep = s.reps[0] if tier == "quick" else s.reps[1]
-        if s.cases is not None and s.strategy is None:
+        if s.cases is not None and s.strategy is None and s.runner is None:
             nrep = 1
         for i, _ in enumerate(s.strata(tier)):
             for rep in range(nrep):
